@@ -47,6 +47,22 @@ static void run_perm(std::istringstream& in, bool laplace) {
   } catch (std::string& e) { printf("error %s\n", e.c_str()); }
 }
 
+// gperm n m <A entries re im ...> <rows> <cols>: grad_perm(A, rows, cols), printed as "r c  re im ..."
+static void run_gperm(std::istringstream& in) {
+  int n, m; in >> n >> m;
+  Matrix<std::complex<double>> A(n, m);
+  for (int i = 0; i < n; i++) for (int j = 0; j < m; j++) { double re, im; in >> re >> im; A(i, j) = std::complex<double>(re, im); }
+  Vector<int> rows(n), cols(m);
+  for (int i = 0; i < n; i++) in >> rows[i];
+  for (int j = 0; j < m; j++) in >> cols[j];
+  try {
+    auto g = grad_perm(A, rows, cols);
+    printf("%zu %zu", (size_t)g.rows, (size_t)g.cols);
+    for (size_t i = 0; i < g.rows; i++) for (size_t j = 0; j < g.cols; j++) printf(" %.17g %.17g", g(i, j).real(), g(i, j).imag());
+    printf("\n");
+  } catch (std::string& e) { printf("error %s\n", e.c_str()); }
+}
+
 int main() {
   std::string line;
   while (std::getline(std::cin, line)) {
@@ -54,6 +70,7 @@ int main() {
     std::string op; in >> op;
     if (op == "perm64") run_perm<double>(in, false);
     else if (op == "perm32") run_perm<float>(in, false);
+    else if (op == "gperm") run_gperm(in);
     else if (op == "lap64") run_perm<double>(in, true);
     else if (op == "lap32") run_perm<float>(in, true);
     else if (op == "gray") {
